@@ -1,0 +1,13 @@
+//go:build verif
+
+package utils
+
+// Verification hook (build tag verif): called by the UDP receiver right after a successful
+// ReadFromUDP with the datagram's size and a pointer to the first byte of the buffer it was read into.
+var VerifEvent func(event string, size int, buf *byte)
+
+func verifEvent(event string, size int, buf *byte) {
+	if f := VerifEvent; f != nil {
+		f(event, size, buf)
+	}
+}
